@@ -1,0 +1,14 @@
+//go:build verif
+
+package client
+
+// VerifPause, when set, is called at named points of the client so that a
+// verification harness can order goroutines deterministically. Only compiled
+// with the build tag verif.
+var VerifPause func(point string)
+
+func verifPause(point string) {
+	if f := VerifPause; f != nil {
+		f(point)
+	}
+}
